@@ -301,6 +301,7 @@ fn phases(thorough: bool, c16: bool) -> Vec<Phase> {
         });
     }
     v.push(debruijn_phase(thorough, c16));
+    v.push(macro_move_phase(thorough, c16));
     let n = nasty.len();
     v.push(Phase {
         name: "histories-nasty-ends",
@@ -362,6 +363,93 @@ fn debruijn_phase(thorough: bool, c16: bool) -> Phase {
         }),
         classes: vec![],
         bounds: json!({"shapes": "end lists of length 1..4 over {1..4}, 1..5, 1..9, 1..33", "history": format!("de Bruijn sequence of order {order} (3 for |A| > 30, 2 for |A| > 60) over A(ends): every window of that many consecutive queries occurs in one run of a single evaluator")}),
+    }
+}
+
+/// long structured histories: a history is a short sequence of *moves* — jump to a cell, or sweep cell by cell to a cell
+/// (one query per segment: the cell midpoint) — so that 4-5 moves describe histories of dozens of queries with long
+/// monotone runs, turns and exact repeats of earlier arguments
+fn macro_move_phase(thorough: bool, c16: bool) -> Phase {
+    // (number of segments, positions used as move targets)
+    let mk = |n: usize| -> (Vec<f64>, Vec<usize>) {
+        let e = iota(n);
+        let mut p: Vec<usize> = if n <= 14 { (0..=n).collect() } else { vec![0, 1, 2, n / 2 - 1, n / 2, n / 2 + 1, n - 3, n - 2, n - 1, n] };
+        p.dedup();
+        (e, p)
+    };
+    let cfgs: Vec<(Vec<f64>, Vec<usize>)> = if thorough { vec![mk(5), mk(13), mk(20), mk(36), mk(70), mk(130)] } else { vec![mk(5), mk(13), mk(36), mk(70)] };
+    let units: Vec<(HUnit<Probe>, Vec<usize>)> = cfgs.into_iter().map(|(e, p)| (make_unit(e.clone(), probe_pw(&e), 1, false, "Probe"), p)).collect();
+    let n = units.len();
+    let units = Arc::new(units);
+    let depth = if thorough { 5 } else { 4 };
+    Phase {
+        name: "macro-move-histories",
+        units: n,
+        split: 2,
+        body: Box::new(move |unit, cx| {
+            let (u, pos) = &units[unit];
+            let nseg = u.ends.len();
+            // cell c in 0..=nseg: c = 0 below the first end, c = nseg at/after the last end; query = a point of the cell
+            let point = |c: usize| -> f64 { if c == 0 { u.ends[0] - 0.5 } else { u.ends[c - 1] + 0.5 } };
+            let d = 1 + cx.choose(depth);
+            let mut hist: Vec<f64> = Vec::new();
+            let mut cur: usize = 0;
+            let mut started = false;
+            for _ in 0..d {
+                // move kinds: 0 jump, 1 sweep (cell by cell), 2 jump to the end value itself (exact breakpoint), C16: 3 = NaN query
+                let kind = cx.choose(if c16 { 4 } else { 3 });
+                if kind == 3 {
+                    hist.push(f64::NAN);
+                    continue;
+                }
+                let target = pos[cx.choose(pos.len())];
+                match kind {
+                    1 if started => {
+                        while cur != target {
+                            cur = if target > cur { cur + 1 } else { cur - 1 };
+                            hist.push(point(cur));
+                        }
+                    }
+                    2 => {
+                        cur = target;
+                        hist.push(if target == 0 { f64::NEG_INFINITY } else { u.ends[target - 1] });
+                    }
+                    _ => {
+                        cur = target;
+                        hist.push(point(cur));
+                    }
+                }
+                started = true;
+            }
+            cx.nontrivial();
+            let mut ev = PiecewiseEvaluator::new(&u.pw.segments);
+            for (t, &x) in hist.iter().enumerate() {
+                let got = guard(|| ev.evaluate(x));
+                cx.evals(1);
+                let want = u.pw.segments[ref_index(&u.ends, x)].evaluate(x);
+                let bad = match &got {
+                    Err(_) => true,
+                    Ok(_) if x.is_nan() => false,
+                    Ok(g) => !bits_eq(*g, want),
+                };
+                if bad {
+                    let hs: Vec<String> = hist[..=t].iter().map(|x| lit(*x)).collect();
+                    let body = format!("    let hist = [{}];\n    let mut ev = PiecewiseEvaluator::new(&pw.segments);\n    for &x in &hist {{\n        let got = ev.evaluate(x);\n        if !x.is_nan() {{ assert_eq!(got.to_bits(), pw.evaluate(x).to_bits(), \"query {{x:e}}\"); }}\n    }}", hs.join(", "));
+                    return Err(Fail::new(
+                        match got { Err(p) => format!("PiecewiseEvaluator::evaluate panicked: {p}"), Ok(_) => "PiecewiseEvaluator answer differs from direct evaluation of the same argument".into() },
+                        json!({"segments": nseg, "ends": "1..n", "history": fjs(&hist[..=t]), "failing_query_index": t, "rust_repro": repro(&u.ends, &body)}),
+                    ));
+                }
+            }
+            if cx.sampling() {
+                cx.sample(json!({"segments": nseg, "history_length": hist.len(), "history": fjs(&hist)}));
+            }
+            Ok(())
+        }),
+        classes: vec![],
+        bounds: json!({"functions": if thorough {"1..n for n = 5, 13, 20, 36, 70, 130"} else {"1..n for n = 5, 13, 36, 70"},
+            "moves": "jump to a cell / sweep cell by cell to a cell (one query per segment) / query exactly the breakpoint that starts a cell (C16: / a NaN query); targets: every cell for n <= 14, else {0,1,2,n/2-1,n/2,n/2+1,n-3,n-2,n-1,n}",
+            "histories": format!("every sequence of <= {depth} moves (histories of up to ~{} queries)", depth * 130)}),
     }
 }
 
